@@ -37,3 +37,17 @@ Example c13_example :
   view_entries (view_include [0%nat; 1%nat]) [(KPair 0 1, 1%nat); (KPair 0 2, 2%nat); (KSp 1, 3%nat)] = [(KPair 0 1, 1%nat); (KSp 1, 3%nat)] /\
   view_entries (view_exclude []) [(KPair 0 1, 1%nat)] = [(KPair 0 1, 1%nat)] /\ view_entries (view_include []) [(KPair 0 1, 1%nat)] = [].
 Proof. repeat split; vm_compute; reflexivity. Qed.
+
+(* --- down to characters (proof/StoreText.v): the file from which the offending lines were deleted, printed (every key in the
+       spelling its entry carries, ":" or "=", continuation lines, an empty line after each section), is read by the line parser
+       (model/Ini.v) as exactly the filtered store -- keys as their blank-free texts *)
+From Coq Require Import ZArith.
+From V Require Import model.Ini proof.IniProofs proof.IniFile proof.IniFile2 proof.StoreText.
+Theorem c13_deleted_file_text : forall (ltext : nat -> list Z), (forall n, label_ok (ltext n)) ->
+  forall (v : view) (f : rawfile val) st, values_ok (hand_delete v f) -> compat ltext (hand_delete v f) = true -> Store.parse (hand_delete v f) = Ok st ->
+  forget (hand_delete v f) = map (fun se => if filterable (fst se) then (fst se, view_entries v (snd se)) else se) (forget f)
+  /\ parse_ini (printed ltext (hand_delete v f)) = Some (text_store ltext (hand_delete v f)).
+Proof.
+  intros ltext L v f st Hv Hc Hp. split; [apply hand_delete_store|exact (store_text_printed ltext L _ st Hv Hc Hp)].
+Qed.
+Print Assumptions c13_deleted_file_text.
